@@ -73,6 +73,97 @@ Theorem C15_query_spec : forall (idx : item -> list N) s x,
 Proof. exact squery_spec. Qed.
 
 (* ---------------------------------------------------------------------------------------------------------------- *)
+(* the same at the level of the PROTOCOL STEP that is extracted and run against the implementation (BloomDefs.wstep): *)
+(* the history the property text singles out, for ANY hash function, ANY world and ANY history through the view       *)
+(* ---------------------------------------------------------------------------------------------------------------- *)
+
+(* builder::initialize_by_size over ANY block b that is large enough (OInit), then ANY list of update / query_and_update /
+   query / invert / reset / get_bits_used through that filter containing an insertion of x with no invert / reset after
+   it: the step function answers 1 to query(x) through the filter, through a FRESH read-only or writable wrap of the
+   block into any register, and through deserialize (bytes or stream) of the block.  (wstep executes the byte-level
+   image: header, count at byte 24, bit array at byte 32, exactly as compared with the implementation.) *)
+Theorem C15_protocol_no_false_negative_in_caller_memory :
+  forall (H : list N -> N -> N) w r b be nbits nh seed pre ins post x,
+  reg_get (w_b w) b = Some be -> ctor_ok nbits nh = true ->
+  size_for (round_cap nbits) <= N.of_nat (length (b_data be)) -> nh < 2 ^ 16 -> seed < 2 ^ 64 ->
+  Forall lop_ok (pre ++ ins :: post) -> linserts ins x -> Forall lmonotone post ->
+  let w0 := fst (wstep true H w (OInit r b nbits nh seed)) in
+  let w1 := wrunL H r (pre ++ ins :: post) w0 in
+  fst (snd (wstep true H w1 (OQuery r x))) = [1%Z] /\
+  (forall r2 writable,
+     fst (snd (wstep true H w1 (OWrap r2 b writable))) = ok /\
+     fst (snd (wstep true H (fst (wstep true H w1 (OWrap r2 b writable))) (OQuery r2 x))) = [1%Z]) /\
+  (forall r2 stream,
+     fst (snd (wstep true H w1 (ODeser r2 b stream))) = ok /\
+     fst (snd (wstep true H (fst (wstep true H w1 (ODeser r2 b stream))) (OQuery r2 x))) = [1%Z]).
+Proof. exact world_nfn_from_init. Qed.
+
+(* OWNED filters at the level of the protocol step.  Register r holds an owned filter (owned_at, established by
+   builder::create_by_size: C15_protocol_constructors); after ANY history through r with an insertion of x and no
+   invert / reset after it: *)
+
+(* ... the filter itself and every copy / move of it answer 1 *)
+Theorem C15_protocol_owned_copy :
+  forall (H : list N -> N -> N) w r s pre ins post x,
+  owned_at w r s -> goodo s -> f_nh (s_f s) <> 0 ->
+  Forall lop_ok (pre ++ ins :: post) -> linserts ins x -> Forall lmonotone post ->
+  let w1 := wrunL H r (pre ++ ins :: post) w in
+  fst (snd (wstep true H w1 (OQuery r x))) = [1%Z] /\
+  (forall r2 variant, r2 <> r ->
+     fst (snd (wstep true H w1 (OCopy r2 r variant))) = ok /\
+     fst (snd (wstep true H (fst (wstep true H w1 (OCopy r2 r variant))) (OQuery r2 x))) = [1%Z]).
+Proof. exact world_nfn_owned_copy. Qed.
+
+(* ... serialize into ANY block that is large enough, then deserialize (bytes / stream) or wrap / writable_wrap of the
+   block into any register: the restored filter answers 1 *)
+Theorem C15_protocol_owned_serialize :
+  forall (H : list N -> N -> N) w r s pre ins post x b be,
+  owned_at w r s -> goodo s -> f_nh (s_f s) <> 0 ->
+  Forall lop_ok (pre ++ ins :: post) -> linserts ins x -> Forall lmonotone post ->
+  let w1 := wrunL H r (pre ++ ins :: post) w in
+  reg_get (w_b w1) b = Some be -> (32 + cap_bytes (f_cap (s_f s)) <= length (b_data be))%nat ->
+  let w2 := fst (wstep true H w1 (OSer r b)) in
+  fst (snd (wstep true H w1 (OSer r b))) = [nz (32 + cap_bytes (f_cap (s_f s)))] /\
+  (forall r2 stream,
+     fst (snd (wstep true H w2 (ODeser r2 b stream))) = ok /\
+     fst (snd (wstep true H (fst (wstep true H w2 (ODeser r2 b stream))) (OQuery r2 x))) = [1%Z]) /\
+  (forall r2 writable,
+     fst (snd (wstep true H w2 (OWrap r2 b writable))) = ok /\
+     fst (snd (wstep true H (fst (wstep true H w2 (OWrap r2 b writable))) (OQuery r2 x))) = [1%Z]).
+Proof. exact world_nfn_owned_serialize. Qed.
+
+(* ... union_with into ANY other compatible owned filter, whatever its state: the union answers 1 *)
+Theorem C15_protocol_owned_union :
+  forall (H : list N -> N -> N) w r s pre ins post x,
+  owned_at w r s -> goodo s -> f_nh (s_f s) <> 0 ->
+  Forall lop_ok (pre ++ ins :: post) -> linserts ins x -> Forall lmonotone post ->
+  let w1 := wrunL H r (pre ++ ins :: post) w in
+  forall r3 t, r3 <> r -> owned_at w1 r3 t -> goodo t ->
+    f_seed (s_f t) = f_seed (s_f s) -> f_nh (s_f t) = f_nh (s_f s) -> f_cap (s_f t) = f_cap (s_f s) ->
+    fst (snd (wstep true H w1 (OUnion r3 r))) = ok /\
+    fst (snd (wstep true H (fst (wstep true H w1 (OUnion r3 r))) (OQuery r3 x))) = [1%Z].
+Proof. exact world_nfn_owned_union. Qed.
+
+(* the constructors establish the hypotheses *)
+Theorem C15_protocol_constructors :
+  forall (H : list N -> N -> N) w r nbits nh seed,
+  ctor_ok nbits nh = true -> nh < 2 ^ 16 -> seed < 2 ^ 64 ->
+  let s0 := mkS (mkF seed nh (round_cap nbits) false false 0 None 0) 0 0 in
+  fst (snd (wstep true H w (ONew r nbits nh seed))) = ok /\
+  owned_at (fst (wstep true H w (ONew r nbits nh seed))) r s0 /\ goodo s0 /\ f_nh (s_f s0) <> 0.
+Proof. exact new_view. Qed.
+
+(* the protocol step REFINES the object-level step: while register r is a writable view of block b holding the image of
+   object s, every operation through r leaves the block holding the image of the object-level result (so every theorem
+   about frun above is a theorem about what wstep leaves in the block) *)
+Theorem C15_protocol_refines_object :
+  forall (H : list N -> N -> N) r b junk ops w s,
+  view_at w r b s junk -> good s -> Forall lop_ok ops ->
+  view_at (wrunL H r ops w) r b (frun true (indices_of H (s_f s)) (lfops ops) s) junk /\
+  good (frun true (indices_of H (s_f s)) (lfops ops) s).
+Proof. exact wrun_local. Qed.
+
+(* ---------------------------------------------------------------------------------------------------------------- *)
 (* exact count, query_and_update, set algebra                                                                        *)
 (* ---------------------------------------------------------------------------------------------------------------- *)
 
@@ -116,16 +207,17 @@ Proof. exact reset_clears. Qed.
 (* ---------------------------------------------------------------------------------------------------------------- *)
 
 (* layout: 4 preamble longs | count at byte 24 (all ones = dirty) | bit array at byte 32; deserialize (bytes or stream)
-   restores configuration, count / dirty marker and every bit; anything may follow the image in the block *)
+   restores configuration, count / dirty marker and every bit; anything may follow the image in the block.
+   cfg_ok: hashes < 2^16, seed < 2^64, capacity a non-zero multiple of 64 below 2^35 (every size the constructors accept) *)
 Theorem C15_deserialize_serialize : forall f bits junk stream,
   cfg_ok f -> in_range bits (f_cap f) -> is_empty f = false -> ser_cnt f < 2 ^ 64 ->
-  deser_filt (serialize f bits ++ junk) stream =
+  deser_filt true (serialize f bits ++ junk) stream =
   Some (mkF (f_seed f) (f_nh f) (f_cap f) (N.eqb (ser_cnt f) DIRTY) false (ser_cnt f) None bits).
 Proof. exact deser_serialize. Qed.
 
 Theorem C15_wrap_serialize : forall f bits junk b writable,
   cfg_ok f -> in_range bits (f_cap f) -> is_empty f = false -> ser_cnt f < 2 ^ 64 ->
-  wrap_filt (serialize f bits ++ junk) b writable =
+  wrap_filt true (serialize f bits ++ junk) b writable =
   Some (mkF (f_seed f) (f_nh f) (f_cap f) (N.eqb (ser_cnt f) DIRTY) (negb writable)
             (if negb writable && N.eqb (ser_cnt f) DIRTY then popcount bits else ser_cnt f) (Some b) 0) /\
   rd (serialize f bits ++ junk) 32 (cap_bytes (f_cap f)) = bits.
@@ -137,8 +229,8 @@ Qed.
 (* the empty image (3 preamble longs, EMPTY flag) restores a fresh filter of the same configuration *)
 Theorem C15_deserialize_serialize_empty : forall f bits junk stream,
   cfg_ok f -> f_nh f <> 0 -> f_cap f <= MAX_BITS -> is_empty f = true ->
-  deser_filt (serialize f bits ++ junk) stream = Some (mkF (f_seed f) (f_nh f) (f_cap f) false false 0 None 0) /\
-  wrap_filt (serialize f bits ++ junk) 0%Z false = Some (mkF (f_seed f) (f_nh f) (f_cap f) false false 0 None 0).
+  deser_filt true (serialize f bits ++ junk) stream = Some (mkF (f_seed f) (f_nh f) (f_cap f) false false 0 None 0) /\
+  wrap_filt true (serialize f bits ++ junk) 0%Z false = Some (mkF (f_seed f) (f_nh f) (f_cap f) false false 0 None 0).
 Proof. exact deser_serialize_empty. Qed.
 
 (* no false negative THROUGH THE BYTES: any history as in C15_no_false_negative_in_any_view, then serialize, then
@@ -152,8 +244,8 @@ Theorem C15_no_false_negative_through_bytes :
   inserts ins x -> Forall monotone post -> Forall (op_ok cap) (pre ++ ins :: post) ->
   let s := frun true idx (pre ++ ins :: post) s0 in
   let img := serialize (s_f s) (s_bits s) ++ junk in
-  (forall stream, exists g, deser_filt img stream = Some g /\ core_query g (f_bits g) (indices_of H g x) = true) /\
-  (forall b writable, exists g, wrap_filt img b writable = Some g /\
+  (forall stream, exists g, deser_filt true img stream = Some g /\ core_query g (f_bits g) (indices_of H g x) = true) /\
+  (forall b writable, exists g, wrap_filt true img b writable = Some g /\
                                 core_query g (rd img 32 (cap_bytes (f_cap g))) (indices_of H g x) = true).
 Proof. exact nfn_through_bytes. Qed.
 
@@ -186,8 +278,8 @@ Theorem C15_constructor_refusals : forall nbits nh seed,
   nh = 0 \/ nbits = 0 \/ MAX_BITS < nbits -> new_owned nbits nh seed = None.
 Proof. exact new_owned_refusals. Qed.
 
-Theorem C15_writable_wrap_of_empty_image_refused : forall d b,
-  (8 <= length d)%nat -> N.land (nth 3 d 0) 4 <> 0 -> wrap_filt d b true = None.
+Theorem C15_writable_wrap_of_empty_image_refused : forall wide d b,
+  (8 <= length d)%nat -> N.land (nth 3 d 0) 4 <> 0 -> wrap_filt wide d b true = None.
 Proof. exact writable_wrap_empty_refused. Qed.
 
 (* compatible filters address the same bits for every item (so that union/intersect are meaningful) *)
@@ -221,18 +313,51 @@ Example C15_nonvacuous :
   s_mcnt s = popcount (s_bits s) /\ s_mcnt (frun true ex_idx [FUpdate ex_x] ex_s0) = DIRTY.
 Proof. vm_compute. repeat split; reflexivity. Qed.
 
+(* protocol level: block 101 of 56 bytes, initialize_by_size(100 bits, 3 hashes, seed 123), query_and_update(9), update(5),
+   get_bits_used, then writable_wrap into register 7 and query(5) there: the hypotheses hold and the answer is 1; the
+   same history in the code before the repairs answers 0 *)
+Example C15_nonvacuous_protocol :
+  let w := mkW [] [(101%Z, mkBE (repeat 0 56) [] 0%Z 0%Z 0%Z 0%Z)] in
+  let ops := [LQau (N_to_le_bytes 8 9); LUpdate ex_x; LBitsUsed] in
+  let w1 := wrunL xxh64 1%Z ops (fst (wstep true xxh64 w (OInit 1%Z 101%Z 100 3 123))) in
+  ctor_ok 100 3 = true /\ size_for (round_cap 100) <= 56 /\ Forall lop_ok ops /\
+  fst (snd (wstep true xxh64 (fst (wstep true xxh64 w1 (OWrap 7%Z 101%Z true))) (OQuery 7%Z ex_x))) = [1%Z] /\
+  fst (snd (wstep true xxh64 (fst (wstep true xxh64 w1 (OWrap 7%Z 101%Z true))) (OQuery 7%Z (N_to_le_bytes 8 77)))) = [0%Z] /\
+  (let w1' := fold_left (fun w o => fst (wstep false xxh64 w (lop_wop 1%Z o))) [LUpdate ex_x]
+                        (fst (wstep false xxh64 w (OInit 1%Z 101%Z 100 3 123))) in
+   fst (snd (wstep false xxh64 (fst (wstep false xxh64 w1' (OWrap 7%Z 101%Z true))) (OQuery 7%Z ex_x))) = [0%Z]).
+Proof. vm_compute. repeat split; try reflexivity; try discriminate; repeat constructor; discriminate. Qed.
+
+(* protocol level, owned: create_by_size(100, 3, 123) in register 1, update(5), serialize into block 101, deserialize into
+   register 2 and wrap into register 3, an empty compatible filter in register 4 united with register 1: all answer 1 *)
+Example C15_nonvacuous_protocol_owned :
+  let w := mkW [] [(101%Z, mkBE (repeat 0 56) [] 0%Z 0%Z 0%Z 0%Z)] in
+  let w1 := wrunL xxh64 1%Z [LUpdate ex_x] (fst (wstep true xxh64 w (ONew 1%Z 100 3 123))) in
+  let w2 := fst (wstep true xxh64 w1 (OSer 1%Z 101%Z)) in
+  let w3 := fst (wstep true xxh64 (fst (wstep true xxh64 w2 (ODeser 2%Z 101%Z false))) (OWrap 3%Z 101%Z false)) in
+  let w4 := fst (wstep true xxh64 (fst (wstep true xxh64 w3 (ONew 4%Z 100 3 123))) (OUnion 4%Z 1%Z)) in
+  map (fun r => fst (snd (wstep true xxh64 w4 (OQuery r ex_x)))) [1%Z; 2%Z; 3%Z; 4%Z] = [[1%Z]; [1%Z]; [1%Z]; [1%Z]] /\
+  map (fun r => fst (snd (wstep true xxh64 w4 (OQuery r (N_to_le_bytes 8 77))))) [1%Z; 2%Z; 3%Z; 4%Z] = [[0%Z]; [0%Z]; [0%Z]; [0%Z]].
+Proof. vm_compute. split; reflexivity. Qed.
+
 (* byte level: the image of the example filter is 48 bytes, carries the count 6 at byte 24, and restores to the same bits *)
 Example C15_nonvacuous_bytes :
   let s := frun true ex_idx ex_hist ex_s0 in
   let img := serialize (s_f s) (s_bits s) in
   length img = 48%nat /\ firstn 4 img = [4; 1; 21; 0] /\ rd img 24 8 = popcount (s_bits s) /\
   cfg_ok (s_f s) /\ is_empty (s_f s) = false /\
-  (match deser_filt img true with Some g => core_query g (f_bits g) (ex_idx ex_x) | None => false end) = true /\
+  (match deser_filt true img true with Some g => core_query g (f_bits g) (ex_idx ex_x) | None => false end) = true /\
   firstn 8 (skipn 24 (serialize (s_f (frun true ex_idx [FUpdate ex_x] ex_s0)) 0)) = repeat 255 8.
 Proof. vm_compute. repeat split; try reflexivity; try discriminate. Qed.
 
 Print Assumptions C15_no_false_negative_in_any_view.
 Print Assumptions C15_no_false_negative_any_index_function.
+Print Assumptions C15_protocol_no_false_negative_in_caller_memory.
+Print Assumptions C15_protocol_owned_copy.
+Print Assumptions C15_protocol_owned_serialize.
+Print Assumptions C15_protocol_owned_union.
+Print Assumptions C15_protocol_constructors.
+Print Assumptions C15_protocol_refines_object.
 Print Assumptions C15_fresh_start.
 Print Assumptions C15_memory_image_always_consistent.
 Print Assumptions C15_inserted_bits_stay_set.
